@@ -228,6 +228,8 @@ IsIdle(K) ==
       pressedMeansNotIdle == K.wfi # {} \/ K.lrr
   IN /\ L.queue = <<>>
      /\ L.waiting = <<>>
+     \* src: mod.rs is_idle (fix 60ae9e3): layout.extra_waiting.is_empty(); Bug = "idle_ignores_extra" = before the fix
+     /\ (Bug = "idle_ignores_extra" \/ L.extra = <<>>)
      /\ L.lpt = 0
      \* src: mod.rs is_idle (fix 594c697): oneshot.keys.is_empty(); Bug = "idle_os_timeout0" = before the fix
      \* (`oneshot.timeout == 0 || keys.is_empty()`: with rapid-event-delay 0 the end of a one-shot was slept on)
@@ -302,11 +304,10 @@ Fut(k) == [k EXCEPT !.out = <<>>, !.L.hk = FutCapAges(@), !.L.hi = FutCapAges(@)
 \* is "K ticks are unobservable" for every K
 IdleTickIsStutter(k) ==
   CanBlockUpdate(k).cb => LET s == StepTick(k) IN s.K.out = <<>> /\ Fut(s.K) = Fut(k)
-\* the may-block states covered by a recorded, unrepaired finding of C07 (known_findings.json) that L1 models:
-\* is_idle looks at layout.waiting but not at layout.extra_waiting (concurrent-tap-hold: a second tap-hold still deciding
-\* after the first one resolved).  (The rapid-event pause, the one-shot end with timeout 0 and the recording state were
-\* repaired in 743d8bc / 594c697 / db302df and are conjuncts of IsIdle now; the zippychord reset is outside L1.)
-IdleTickKnownDefect(k) == k.L.extra # <<>>
+\* the may-block states covered by a recorded, unrepaired finding of C07 (known_findings.json) that L1 models: none
+\* (the rapid-event pause, the one-shot end with timeout 0, the recording state and extra_waiting were repaired in
+\* 743d8bc / 594c697 / db302df / 60ae9e3 and are conjuncts of IsIdle now; the zippychord reset is outside L1)
+IdleTickKnownDefect(k) == FALSE
 \* ----- projection on what the harness can observe without hooks (binding B) ---------------
 ProjSt(s) ==
   CASE s.t = "nk" -> <<"nk", s.a, s.x, s.y, s.f>>
